@@ -30,7 +30,7 @@ theorem fr_sendQueued (s : Sess) : Fr s (sendQueued s) := by
   · exact Fr.refl s
 
 theorem fr_prep (s : Sess) (m : OutMsg) : Fr s (prep s m).2 := by
-  unfold prep
+  unfold prep prepCore
   simp only []
   split
   · split
@@ -94,7 +94,7 @@ theorem fr_queueForSend (s : Sess) (m : OutMsg) : Fr s (queueForSend s m) := by
 theorem fr_sendInReplyTo (s : Sess) (m : OutMsg) : Fr s (sendInReplyTo s m) := by
   unfold sendInReplyTo
   split
-  · exact fr_queueForSend s m
+  · exact fr_queueForSend s _
   · have hp := fr_prep s m
     generalize prep s m = r at hp
     obtain ⟨o, s'⟩ := r
@@ -121,6 +121,8 @@ theorem fpeel_dropAndSend (m : OutMsg) (h : Fr s x) : Fr s (dropAndSend x m) := 
 theorem fpeel_enqueueAndSend (m : OutMsg) (h : Fr s x) : Fr s (enqueueAndSend x m) := h.trans (fr_enqueueAndSend x m)
 theorem fpeel_dropAndReset (h : Fr s x) : Fr s (dropAndReset x) := h.trans (fr_dropAndReset x)
 theorem fpeel_sendLogonInReplyTo (r : Bool) (h : Fr s x) : Fr s (sendLogonInReplyTo x r) := h.trans (fr_dropAndSend x _)
+theorem fpeel_sendLogonRe (r : Bool) (m : InMsg) (h : Fr s x) : Fr s (sendLogonRe x r m) := h.trans (fr_dropAndSend x _)
+theorem fpeel_setReplyLast (v : Option Int) (h : Fr s x) : Fr s (x.setReplyLast v) := h.trans ⟨rfl, rfl, rfl, rfl, rfl⟩
 theorem fpeel_sendLogout (h : Fr s x) : Fr s (sendLogout x) := h.trans (fr_sendInReplyTo x (mkOut "5" []))
 theorem fpeel_initiateLogout (h : Fr s x) : Fr s (initiateLogout x) := h.trans (fr_sendInReplyTo x (mkOut "5" []))
 theorem fpeel_doReject (m : InMsg) (r : Nat) (t : Option Nat) (b : Bool) (h : Fr s x) : Fr s (doReject x m r t b) :=
@@ -134,6 +136,8 @@ macro_rules | `(tactic| fr_step) => `(tactic| apply fpeel_dropAndSend)
 macro_rules | `(tactic| fr_step) => `(tactic| apply fpeel_enqueueAndSend)
 macro_rules | `(tactic| fr_step) => `(tactic| apply fpeel_dropAndReset)
 macro_rules | `(tactic| fr_step) => `(tactic| apply fpeel_sendLogonInReplyTo)
+macro_rules | `(tactic| fr_step) => `(tactic| apply fpeel_sendLogonRe)
+macro_rules | `(tactic| fr_step) => `(tactic| apply fpeel_setReplyLast)
 macro_rules | `(tactic| fr_step) => `(tactic| apply fpeel_sendLogout)
 macro_rules | `(tactic| fr_step) => `(tactic| apply fpeel_initiateLogout)
 macro_rules | `(tactic| fr_step) => `(tactic| apply fpeel_doReject)
@@ -295,7 +299,7 @@ theorem fr_inSessionFixMsgIn (s : Sess) (m : InMsg) : Fr s (inSessionFixMsgIn s 
     generalize handleLogon s m = r at hl
     obtain ⟨s', o⟩ := r
     cases o with
-    | some e => exact fpeel_initiateLogout hl
+    | some e => exact fpeel_sendInReplyTo ((mkOut "5" []).inReplyTo m) hl
     | none => exact hl
   · split
     · exact fr_handleLogout s m
@@ -349,9 +353,9 @@ theorem fr_resendFixMsgIn (s : Sess) (stash : List (Int × InMsg)) (cur fin : In
     | exact h1.trans (fr_sRR_eq (by assumption))
     | exact h1.trans (fr_drain_eq (by assumption))
 
-theorem fr_shutdownWithReason (s : Sess) (incr : Bool) : Fr s (shutdownWithReason s incr).1 := by
+theorem fr_shutdownWithReason (s : Sess) (m : InMsg) (incr : Bool) : Fr s (shutdownWithReason s m incr).1 := by
   unfold shutdownWithReason
-  show Fr s (if incr = true then incrTarget (dropAndSend s (mkOut "5" [])) else dropAndSend s (mkOut "5" []))
+  show Fr s (if incr = true then incrTarget (dropAndSend s ((mkOut "5" []).inReplyTo m)) else dropAndSend s ((mkOut "5" []).inReplyTo m))
   fr_peel
 
 theorem fr_handleLogon_eq {s : Sess} {m : InMsg} {r : Sess × Option LogonErr} (hr : handleLogon s m = r) : Fr s r.1 := by
@@ -367,7 +371,7 @@ theorem fr_logonFixMsgIn (s : Sess) (m : InMsg) : Fr s (logonFixMsgIn s m).1 := 
       have hh := fr_handleLogon_eq (by assumption : handleLogon s m = _)
       first
         | exact hh
-        | exact hh.trans (fr_shutdownWithReason _ _)
+        | exact hh.trans (fr_shutdownWithReason _ _ _)
         | exact hh.trans (fr_sRR_eq (by assumption)))
 
 theorem fr_fixMsgInCore (s : Sess) (m : InMsg) : Fr s (fixMsgInCore s m).1 := by
